@@ -46,6 +46,8 @@ def replay_hitenum(s, first, dirn):
 
 
 class Base(Stream):
+    case_timeout = 10
+    mem_limit_gb = 1.5
     prelude = '''From Coq Require Import ZArith List Bool String. Import ListNotations.
 Require Import Py Cigar. Open Scope Z_scope.
 Fixpoint eqps (a b : list (Z * Z)) : bool := match a, b with [], [] => true | (r, q) :: t, (r', q') :: t' => (r =? r') && (q =? q') && eqps t t' | _, _ => false end.
